@@ -56,6 +56,8 @@ SPECS = {
     "rxuni": '<start> ::= r"[a-z\xe9]{3}" "!"\n',
     "rxnull": '<start> ::= r"a*"+ "b"\n',  # a regex that matches the empty string, under +
     "rxgen": '<start> ::= rb"[\\x7f-\\x81]{1,2}" b"!" r"[ab]?"\n',
+    # a bytes regex with a whitespace class next to a control byte that only Unicode-aware matching treats as whitespace
+    "rxws": '<start> ::= rb"[ab]\\s?" b"\\x1f" rb"[ab]\\s?" b"\\xa0"\n',
     "nullseq": '<start> ::= ("a"? "c")* "b"\n',
     "nullplus": '<start> ::= ("a"?)+ "b"\n',
     "nullnest": '<start> ::= ("a"*)* "b"\n',
